@@ -6,8 +6,8 @@ EXTENDS WalkDef
 (***************************************************************************)
 CONSTANT TreeUnderWalk
 VARIABLES stack, trace
-Frame(v, path, inval) == [v |-> v, path |-> path, inval |-> inval, kvOf |-> <<>>]
-KvFrame(e, path, inval) == [v |-> e.val, path |-> path, inval |-> inval, kvOf |-> <<e.key>>]
+Frame(v, path, inval) == [v |-> v, path |-> path, inval |-> inval, kvOf |-> <<>>, asValue |-> inval]
+KvFrame(e, path, inval) == [v |-> e.val, path |-> path, inval |-> inval, kvOf |-> <<e.key>>, asValue |-> FALSE]
 WInit == stack = <<Frame(TreeUnderWalk, <<>>, FALSE)>> /\ trace = <<>>
 Children(f) ==
   LET v == f.v IN
@@ -25,7 +25,10 @@ WNext ==
   /\ LET f == Head(stack) IN
      IF f.kvOf # <<>>
      THEN /\ trace' = Append(trace, Call("kv", f.path))
-          /\ stack' = <<[f EXCEPT !.kvOf = <<>>]>> \o Tail(stack)
+          /\ stack' = <<[f EXCEPT !.kvOf = <<>>, !.asValue = f.inval]>> \o Tail(stack)
+     ELSE IF f.asValue
+     THEN /\ trace' = Append(trace, Call("value", f.path))
+          /\ stack' = <<[f EXCEPT !.asValue = FALSE]>> \o Tail(stack)
      ELSE /\ trace' = Append(trace, NodeCall(f))
           /\ stack' = Children(f) \o Tail(stack)
 WSpec == WInit /\ [][WNext]_<<stack, trace>>
